@@ -90,6 +90,8 @@ def is_set_expr(e, setvars):
         return True
     if isinstance(e, ast.Name) and e.id in setvars:
         return True
+    if isinstance(e, ast.Call) and isinstance(e.func, ast.Name) and e.func.id == "cast" and len(e.args) == 2:
+        return is_set_expr(e.args[1], setvars)
     if isinstance(e, ast.BinOp) and isinstance(e.op, (ast.BitOr, ast.BitAnd, ast.Sub, ast.BitXor)):
         return is_set_expr(e.left, setvars) or is_set_expr(e.right, setvars)
     if isinstance(e, ast.Call) and isinstance(e.func, ast.Attribute) and e.func.attr in ("union", "intersection", "difference", "symmetric_difference", "copy") and is_set_expr(e.func.value, setvars):
